@@ -69,6 +69,8 @@ def run_path(hname, params, prefix, validate=False):
         rec.update(status='unencoded', msg=str(e)[:200])
     except RecursionError:
         rec.update(status='unencoded', msg='python recursion limit')
+    except Exception as e:
+        rec.update(status='error', msg='harness/engine error: ' + repr(e)[:150] + ' @ ' + traceback.format_exc().strip().split('\n')[-3].strip()[:120])
     rec['alts'] = I.new_alts
     rec['covers'] = I.covers
     rec['depth'] = len(I.decisions)
@@ -154,7 +156,7 @@ def explore_task(job_idx, hname, params, prefixes, max_paths, max_s, validate_ev
         elif st == 'panic':
             if len(out['panics']) < 5:
                 out['panics'].append(dict(msg=r['msg'], values=r.get('values'), harness=hname, params=params))
-        elif st == 'unencoded':
+        elif st in ('unencoded', 'error'):
             out['unencoded'][r['msg']] = out['unencoded'].get(r['msg'], 0) + 1
         if 'validated' in r:
             if r['validated']:
